@@ -9,27 +9,46 @@ From SK Require Import lib.LGraph lib.C01_GraphLemmas model.C01_Model model.C01_
 Import ListNotations.
 Local Open Scope Z_scope.
 
-(** every bond that h_to_explicit appends starts at an atom of the list it iterates over *)
-Lemma step_edges_fst st h e : In e (step_edges st h) -> fst (fst e) = h.
+(** every bond that h_to_explicit appends starts at an atom of the list it iterates over
+    (own copies of the small fold lemmas: only the three theorems of C01 named below are relied upon) *)
+Definition sedges (st : hx_state) : list (N * N * iedge) := snd (fst st).
+Definition snodes (st : hx_state) : list (N * inode) := fst (fst st).
+Definition smax (st : hx_state) : N := snd st.
+Definition sstep_edges (st : hx_state) (h : N) : list (N * N * iedge) :=
+  match assoc h (snodes st) with
+  | None => []
+  | Some b =>
+      if hx_count b <=? 0 then []
+      else map (fun n' => (h, n', IE 2 2 0)) (map (fun i => (smax st + N.of_nat i)%N) (seq 1 (Z.to_nat (hx_count b))))
+  end.
+
+Lemma sstep_edges_eq st h : sedges (hx_step st h) = sedges st ++ sstep_edges st h.
 Proof.
-  unfold step_edges. destruct (assoc h (st_nodes st)) as [b|]; [|intros []]. destruct (hx_count b <=? 0); [intros []|].
+  destruct st as [[ns es] mx]. unfold sstep_edges, sedges, snodes, smax, hx_step. cbn [fst snd].
+  destruct (assoc h ns) as [b|]; [|cbn [fst snd]; rewrite app_nil_r; reflexivity].
+  destruct (hx_count b <=? 0); cbn [fst snd]; [rewrite app_nil_r|]; reflexivity.
+Qed.
+
+Lemma sstep_edges_fst st h e : In e (sstep_edges st h) -> fst (fst e) = h.
+Proof.
+  unfold sstep_edges. destruct (assoc h (snodes st)) as [b|]; [|intros []]. destruct (hx_count b <=? 0); [intros []|].
   intros I. apply in_map_iff in I. destruct I as (n' & <- & _). reflexivity.
 Qed.
 
 Lemma hx_fold_edges_fst l : forall st, exists ne,
-  st_edges (fold_left hx_step l st) = st_edges st ++ ne /\ Forall (fun e => In (fst (fst e)) l) ne.
+  sedges (fold_left hx_step l st) = sedges st ++ ne /\ Forall (fun e => In (fst (fst e)) l) ne.
 Proof.
   induction l as [|h r IH]; intros st; cbn [fold_left].
   - exists []. rewrite app_nil_r. split; [reflexivity|constructor].
-  - destruct (IH (hx_step st h)) as (ne & E & F). exists (step_edges st h ++ ne). split.
-    + rewrite E, hx_step_edges, app_assoc. reflexivity.
+  - destruct (IH (hx_step st h)) as (ne & E & F). exists (sstep_edges st h ++ ne). split.
+    + rewrite E, sstep_edges_eq, app_assoc. reflexivity.
     + apply Forall_app. split.
-      * apply Forall_forall. intros e Ie. left. symmetry. apply (step_edges_fst st h e Ie).
+      * apply Forall_forall. intros e Ie. left. symmetry. apply (sstep_edges_fst st h e Ie).
       * eapply Forall_impl; [|exact F]. intros e Ie. right. exact Ie.
 Qed.
 
 Lemma gedges_hx (I : its) :
-  gedges (fst (h_to_explicit_its I)) = st_edges (fold_left hx_step (node_ids I) (gnodes I, gedges I, fold_left N.max (node_ids I) 0%N)).
+  gedges (fst (h_to_explicit_its I)) = sedges (fold_left hx_step (node_ids I) (gnodes I, gedges I, fold_left N.max (node_ids I) 0%N)).
 Proof.
   unfold h_to_explicit_its. destruct (fold_left hx_step (node_ids I) (gnodes I, gedges I, fold_left N.max (node_ids I) 0%N)) as [[ns es] mx].
   reflexivity.
@@ -62,7 +81,7 @@ Proof.
   assert (In u (node_ids I)) as Iu'.
   { unfold J in En. rewrite gedges_hx in En.
     destruct (hx_fold_edges_fst (node_ids I) (gnodes I, gedges I, fold_left N.max (node_ids I) 0%N)) as (ne' & E' & F').
-    rewrite E' in En. unfold st_edges in En. cbn [fst snd] in En. apply app_inv_head in En. subst ne'.
+    rewrite E' in En. unfold sedges in En. cbn [fst snd] in En. apply app_inv_head in En. subst ne'.
     rewrite Forall_forall in F'. exact (F' _ Iu). }
   split; [exact Iu'|].
   destruct (assoc_is_some u (gnodes I) Iu') as (a & La). fold (label I u) in La.
